@@ -60,7 +60,7 @@ m = {
         "name": "fmc",
         "path": "/verif/engine",
         "serves_properties": [c["property_id"] for c in checks],
-        "kind_free_text": "stateless model checker for the real code: gcc's ThreadSanitizer instrumentation linked against our own runtime that serialises kernel threads and makes every shared access/atomic/asm hook/environment call a scheduling point; iterative deviation bounding (pre-emptions, x86-TSO delayed stores, environment answers); conflict-closed site set; fork per execution; heap/stack shadow, fiber run map and wake accounting as oracles; replayable schedules",
+        "kind_free_text": "stateless model checker for the real code: gcc's ThreadSanitizer instrumentation linked against our own runtime that serialises kernel threads and makes every shared access/atomic/asm hook/environment call a scheduling point; iterative deviation bounding (pre-emptions, x86-TSO delayed stores, environment answers); conflict-closed site set; fork per execution; optional restriction of pre-emption points to the object under test (-focus) for deeper bounds; programs, creation orders and configurations enumerated as inputs; heap/stack shadow, fiber run map, wake accounting, reclaim and run-queue ownership observers as oracles; replayable schedules",
     }],
     "checks": checks,
     "not_applicable": na,
